@@ -111,6 +111,13 @@ func (r *real) apply(o op, m *model) error {
 			return err
 		}
 		n, b := stateOf(o.B)
+		if o.B == 2 {
+			// state s2 is written the way chain.executeTx writes the sender of a transaction that
+			// failed in the VM: tentative changes, AccountState.Reset(), then the final values
+			as.SetNonce(n + 40)
+			as.State().Balance = append([]byte{0x7f}, b...)
+			as.Reset()
+		}
 		as.SetNonce(n)
 		as.State().Balance = b
 		return as.PutState()
